@@ -520,6 +520,7 @@ func main() {
 	}
 	si, sn, worker := ev.Shard()
 	if !worker {
+		transport()
 		r.Fork(len(cfgs), nil, nil)
 		if exe := os.Getenv("VERIF_RACE_EXE"); exe != "" {
 			rctx, rcancel := context.WithTimeout(context.Background(), 5*time.Minute) // harness safety only
